@@ -44,6 +44,9 @@ FIXED_OPS = [
     'x = x + x; x = reversed(x)', 'x = filter(map(tt + tt, v => v), v => True)',
 ]
 SPECULATIVE_OPS = [
+    # the right-hand side itself grows the target
+    'l += [push(l, 1)]', 'l += [l.push(0), l.push(0)]', 'x = l; x += [x.push(0)]', 'push(l, push(l, 1))', 'insert(l, 0, push(l, 1))', 'l[0] = push(l, 1)',
+    'd["new"] = __setitem__(d, "n2", 1)', 'c = [l]; c[0] += [push(c[0], 1)]',
     # forms the grammar does not have today (syntax errors, harmless): if a change introduces one of them it is explored like the rest
     'l[0:0] = l', 'l[1:2] = l', 'l[:] = l + l', 'x = l; x[0:0] = l', 'l[0:0] += l', 'l **= 2', 'l @= l', 'extend(l, l)', 'l.extend(l)', 'append(l, 1)',
     'l.append(1)', 'x = concat(l, l)', 'update(d, d2)', 'd.update(d2)', 'x = merge(d, d2)', 'x = repeat(l, 3)', 'x = range(20000)', 'x = [*l, *l]',
